@@ -651,3 +651,14 @@ package argmapper
 //@   before "return f.callDirect(log, argMap)" set nexecAtFinal = nexec
 //@   before "return f.callDirect(log, argMap)" set cachedAtFinal = cachedOnce(f)
 //@   before "builder, buildErr := f.argBuilder(opts...)" set failed = nil
+
+// ---------------------------------------------------------------- convert.go: convertMulti, Convert (C10)
+//@ func convertMulti
+//@   requires !planning && forall(i, int, imp(0 <= i && i < len(target), target[i] != nil))
+//@   ensures  [error-or-values] (result1 != nil) == (result0 == nil) || len(target) == 0
+//@   ensures  [error-means-nil-values] imp(result1 != nil, result0 == nil)
+//@   assigns  *
+//@ func Convert
+//@   requires !planning && target != nil
+//@   ensures  [error-means-nil-value] imp(result1 != nil, result0 == nil)
+//@   assigns  *
